@@ -140,9 +140,21 @@ def _classify_lnotab_diff(code, r, path):
                 for o in range(first, off + 2, 2):
                     if refs.addr2line(x, o) != refs.addr2line(y, o):
                         return "co_lnotab"
-        # a moved entry may merge with the next instruction's own entry (one entry fewer) or
-        # cancel against it (-1 moved onto a +1: both vanish, two entries fewer); never more entries
-        if not (0 <= len(x.co_lnotab) - len(y.co_lnotab) <= 4 * len(mids)):
+        # a moved entry lands on the next instruction's start, where it can merge with, or cancel
+        # against, that instruction's own entries (all pieces of a split delta included): the table
+        # may lose at most the entries that sit inside an affected instruction or at the start of
+        # the instruction after it; it never gains entries
+        nxt = {}
+        for first, off, opc, arg in refs.units(x.co_code):
+            if first in affected:
+                nxt[first] = off + 2
+        addr = 0
+        mergeable = 0
+        for i in range(0, len(x.co_lnotab), 2):
+            addr += x.co_lnotab[i]
+            if any(f < addr <= n for f, n in nxt.items()):
+                mergeable += 1
+        if not (0 <= len(x.co_lnotab) - len(y.co_lnotab) <= 2 * mergeable):
             return "co_lnotab"
         return "co_lnotab:mid_instruction_entry"
     except Exception:
